@@ -74,7 +74,11 @@ def _expectedFailure(func):
         try:
             func(*args, **kwargs)
         except Exception:
-            raise _ExpectedFailure(sys.exc_info())
+            exc_info = sys.exc_info()
+            case = getattr(func, "__self__", None)
+            if case is not None:
+                case._report_traceback(exc_info)
+            raise _ExpectedFailure(exc_info)
         raise _UnexpectedSuccess
 
     return wrapper
